@@ -924,3 +924,30 @@ def decoder_state_guarded(fi):
     """the function tests the incremental decoder's own state (`decoder.getstate()`): a per-chunk decode under such a guard (an "ASCII
     fast path while the decoder is idle") may or may not equal incremental decoding -- a question about codec state, not about shape"""
     return any(isinstance(k, ast.Call) and isinstance(k.func, ast.Attribute) and k.func.attr == 'getstate' for k in ast.walk(fi.node))
+
+
+def end_bound_kind(fi, call, buf, first_end_arg=2):
+    """how a search / find call bounds the END of the region it scans: 'none' (no end argument), 'whole' (the end is len(<buffer>) or
+    sys.maxsize on every binding), 'match-end' (derived from the end of an earlier match: an occurrence of a later-listed pattern that starts
+    earlier but extends beyond it is cut off -- decidedly wrong), 'unknown' (anything else, e.g. shrunk to the start under a condition)"""
+    args = list(call.args[first_end_arg:]) + [kw.value for kw in call.keywords if kw.arg in ('endpos', 'end')]
+    if not args and not [kw for kw in call.keywords if kw.arg not in ('pos',)]:
+        return 'none'
+    kinds = set()
+    for a in args:
+        vals = [a]
+        if isinstance(a, ast.Name):
+            vals = [st.value for st in ast.walk(fi.node) if isinstance(st, ast.Assign) and any(isinstance(t, ast.Name) and t.id == a.id for t in st.targets)] or [a]
+        for v in vals:
+            t = ' '.join(ast.unparse(v).split())
+            if t in ('len(%s)' % buf, 'sys.maxsize'):
+                kinds.add('whole')
+            elif any(isinstance(x, ast.Call) and isinstance(x.func, ast.Attribute) and x.func.attr == 'end' for x in ast.walk(v)) or '.end' in t:
+                kinds.add('match-end')
+            else:
+                kinds.add('unknown')
+    if 'match-end' in kinds:
+        return 'match-end'
+    if kinds == {'whole'}:
+        return 'whole'
+    return 'unknown'
